@@ -232,12 +232,13 @@ def _is_reduce_padding(ctx, b, la, lc):
     return False
 
 
-def narrow_arithmetic(ctx, rule):
-    """R01.h: no addition / multiplication on integer types narrower than 32 bits on the reachable paths (a count of grams,
+def narrow_arithmetic(ctx, rule, only_prefix=None):
+    """(only_prefix: restrict to bodies whose id starts with one of these prefixes)
+    R01.h: no addition / multiplication on integer types narrower than 32 bits on the reachable paths (a count of grams,
     words or characters in such a type overflows for ordinary long inputs: panic in a checked build, wrap-around otherwise)"""
     n = 0
     for b in ctx.facts.fns():
-        if b.id not in _reach(ctx) or _skip_body(b):
+        if b.id not in _reach(ctx) or _skip_body(b) or (only_prefix and not b.id.startswith(tuple(only_prefix))):
             continue
         for bi, t in b.iter_terms():
             if t["k"] != "assert" or t["msg"].get("kind") != "Overflow" or t["msg"].get("op") not in ("Add", "Mul", "Sub"):
@@ -252,7 +253,7 @@ def narrow_arithmetic(ctx, rule):
     # narrowing casts of counts / lengths / ratings to 8 or 16 bits truncate silently
     width = {"u8": 8, "i8": 8, "u16": 16, "i16": 16, "u32": 32, "i32": 32, "u64": 64, "i64": 64, "usize": 64, "isize": 64, "u128": 128, "i128": 128}
     for b in ctx.facts.fns():
-        if b.id not in _reach(ctx) or _skip_body(b):
+        if b.id not in _reach(ctx) or _skip_body(b) or (only_prefix and not b.id.startswith(tuple(only_prefix))):
             continue
         for bi, si, st in b.iter_stmts():
             if st["k"] != "assign" or st["rv"]["k"] != "cast" or b.blocks[bi]["cleanup"] or st["rv"].get("kind") not in ("IntToInt", "FloatToInt"):
@@ -264,6 +265,22 @@ def narrow_arithmetic(ctx, rule):
             src = (pl or {}).get("ty") or op.get("const", {}).get("ty", "")
             dst = st["rv"].get("ty", "")
             if width.get(dst, 64) <= 16 and (width.get(src, 64) > width.get(dst, 64) or st["rv"]["kind"] == "FloatToInt") and "const" not in op:
+                # `enum_value as u8`: MIR reads the discriminant (isize) and casts it; for a field-less enum with at most 2^width
+                # variants the cast loses nothing
+                e_ = S.strip_refs(ctx.sym(b).operand(op))
+                if e_[0] == "discr":
+                    ety = None
+                    for y_ in S.walk(e_[1]):
+                        pass
+                    # type of the place whose discriminant is read
+                    for bj, sj, stj in b.iter_stmts():
+                        if stj["k"] == "assign" and stj["rv"]["k"] == "discr" and pl is not None and not stj["place"]["p"] \
+                                and stj["place"]["l"] == pl["l"]:
+                            ety = stj["rv"]["place"].get("ty")
+                    adt = ctx.facts.adts.get(U.adt_of(ctx.facts, ety) or "") if ety else None
+                    if adt and adt.get("kind") == "enum" and len(adt["variants"]) <= 2 ** width[dst] and \
+                            all(not v.get("fields") for v in adt["variants"]):
+                        continue
                 n += 1
                 ctx.fail(rule, "narrowing-cast:%s:%s->%s" % (b.id, src, dst), where(b, bi, st), "`%s as %s` in %s truncates counts / lengths / "
                          "ratings beyond %d bits silently (a result then depends on integer wrap-around)" % (src, dst, b.id, width[dst]),
